@@ -279,6 +279,11 @@ print(json.dumps(res))
 '''
 
 
+def native_witness(ctx):
+    """concrete search on the real code, usable when the contracts no longer apply to a changed source (vc/check.py)"""
+    return core.run_native(REPLAY, {'search': True})
+
+
 def build(ctx):
     for c in specbytes_contracts():
         pyvc.Engine(ctx, c).run()
